@@ -7,9 +7,9 @@ TB = "TLC 1.8 + CommunityModules; the TLA+ value parser/printer; numpy; the eval
 CHECKS = {
  "C02": dict(
    level="model_checking", design="DESIGN.md section 5 C02",
-   text="LwCircuit identifies modes by identity (lines) instead of position, so its Add action is the property's own wording; TLC checks AncillaPrivate, frames, unitarity and compositional = flattened semantics on every program of the marked-template scopes (all herald (in,out) pairs, both declaration orders, photon numbers 0/1, all start modes, grouped or not, nested), and the programs (TLC dump and TLC -simulate behaviours) are replayed into lightworks and compared modulo the herald-preserving bijection of hidden modes; recorded random histories are validated by the LwCircuitTrace specification.",
+   text="LwCircuit identifies modes by identity (lines) instead of position, so its Add action is the property's own wording; TLC checks AncillaPrivate, frames, unitarity and compositional = flattened semantics on every program of the marked-template scopes (all herald (in,out) pairs, both declaration orders, photon numbers 0/1, all start modes, grouped or not, nested), and the programs (TLC dump and TLC -simulate behaviours) are replayed into lightworks and compared modulo the herald-preserving bijection of hidden modes; recorded random histories are validated by the LwCircuitTrace specification. LwAddPos transcribes the implementation's positional add algorithm (mode mapping over hidden modes, pass-through insertion with the cascading shift, herald insertion, provisional / full swaps) and TLC checks that it refines the line-identity Add (Refines, ValidAgree, HeraldAgree, WellFormed; three re-introduced defects are refuted in every run); its behaviours are replayed and the real objects' private bookkeeping is compared field by field with the positional record (a difference is reported as drift and triggers a deeper semantic replay, it is never a violation by itself).",
    note="Exhaustive within <=4-mode parents, <=3 additions, <=2 heralds per sub-circuit, nesting depth 2; larger histories (up to 9 modes, 14 calls) only as recorded traces. " + TB,
-   technique="TLA+ model (LwCircuit, line-identity Add) checked by TLC; dump / simulate behaviours replayed into the implementation; recorded traces validated by LwCircuitTrace"),
+   technique="TLA+ models (LwCircuit: line-identity Add; LwAddPos: positional add algorithm refined against it) checked by TLC; dump / simulate behaviours replayed into the implementation; recorded traces validated by LwCircuitTrace"),
  "C08": dict(
    level="model_checking", design="DESIGN.md section 5 C08",
    text="Every LwCircuit action has an explicit frame (FrameProp: a call changes at most its target; RejectFrame: a rejected call changes nothing), checked by TLC on reuse-heavy scopes (same sub-circuit added repeatedly, edited afterwards, every invalid-argument class on parents with ancillas); in every replay and every recorded trace the observable state of EVERY live object is compared before/after EVERY call.",
